@@ -63,6 +63,10 @@ def _check(res, cfg):
             probs.append(f"chain {c}: statistics rows {res['stats']['tok'][c]} != {rows[c]}")
         if res["stats"]["flag"][c] != [True] * n_rec or any(x < 0 for x in res["stats"]["cnt"][c]):
             probs.append(f"chain {c}: typed statistics (bool/int) not recorded: {res['stats']['flag'][c]} {res['stats']['cnt'][c]}")
+        if cfg.get("two_transitions"):
+            su = res["stats_u"]
+            if su["tok"][c] != [-x for x in rows[c]] or su["cnt"][c] != [7] * n_rec or su["flag"][c] != [True] * n_rec:
+                probs.append(f"chain {c}: statistics of the second transition {su['tok'][c]} {su['cnt'][c]} != its own values {[-x for x in rows[c]]}")
         last = per[c][-1] if per[c] else -1.0 - c
         if res["final"][c] != last:
             probs.append(f"chain {c}: final state {res['final'][c]} != last state {last}")
@@ -81,7 +85,7 @@ def case_configs(rec, configs):
         try:
             res = SL.run(cfg["n_warm"], cfg["n_main"], n_chain=cfg["n_chain"], n_process=cfg["n_process"], trace_warm_up=cfg["trace_warm_up"],
                          stager=cfg["stager"], adapters=cfg["adapters"], force_memmap=cfg["force_memmap"], init=cfg["init"],
-                         assignment=(lambda c: c), trace_funcs=cfg.get("traced", True))
+                         assignment=(lambda c: c), trace_funcs=cfg.get("traced", True), two_transitions=cfg.get("two_transitions", False))
         except Exception as e:  # noqa: BLE001
             viol.setdefault(f"exception:{type(e).__name__}", (f"{type(e).__name__}: {e}", cfg))
             continue
@@ -163,6 +167,13 @@ def _configs(tier):
                         # no trace functions at all: statistics are still recorded for exactly the requested iterations
                         out.append({"n_warm": n_warm, "n_main": n_main, "n_chain": 2, "trace_warm_up": twu, "stager": stager, "adapters": adapters,
                                     "n_process": n_process, "force_memmap": False, "init": "dict", "traced": False})
+    # composed samplers: two transitions whose statistics share their keys, in memory / memory-mapped / modelled parallel
+    for n_warm, n_main in ((0, 2), (2, 2), (3, 1)) + (((5, 3),) if th else ()):
+        for twu in (False, True):
+            for stager, adapters in (("warmup", "fast"), ("windowed111", "slow")):
+                for n_process, fm in ((1, False), (1, True), (2, False), (None, False)):
+                    out.append({"n_warm": n_warm, "n_main": n_main, "n_chain": 2, "trace_warm_up": twu, "stager": stager, "adapters": adapters,
+                                "n_process": n_process, "force_memmap": fm, "init": "dict", "two_transitions": True})
     return out
 
 
@@ -182,7 +193,7 @@ def replay(cand):
         try:
             res = SL.run(cfg["n_warm"], cfg["n_main"], n_chain=cfg["n_chain"], n_process=cfg["n_process"], trace_warm_up=cfg["trace_warm_up"],
                          stager=cfg["stager"], adapters=cfg["adapters"], force_memmap=cfg["force_memmap"], init=cfg["init"],
-                         trace_funcs=cfg.get("traced", True))
+                         trace_funcs=cfg.get("traced", True), two_transitions=cfg.get("two_transitions", False))
         except Exception as e:  # noqa: BLE001
             return {"reproduced": True, "detail": f"{type(e).__name__}: {e} for configuration {cfg}"}
         pr = _check(res, cfg)
